@@ -318,6 +318,9 @@ struct Scenario {
           else if (kind == 3) resp = cc + " " + wire::sha1_hex(sc + ":" + cc + ":" + (other.empty() ? std::string("00") : other));   // another cookie
           else if (kind == 4) resp = cc + " " + wire::sha1_hex(sc + ":" + cc + ":" + cookie + "x");   // right cookie, wrong composition
           else if (kind == 5) resp = cc + " ";                       // empty hash
+          else if (kind == 6) resp = cc + " " + hash.substr(0, (size_t)(1 + s.N(1, 7) % 39));   // a proper prefix of the right answer
+          else if (kind == 7) resp = cc + " " + hash + (s.N(1, 7) % 2 ? "0" : " 00");          // the right answer and more
+          else if (kind == 8) { std::string up = hash; for (auto &ch : up) if (ch >= 'a' && ch <= 'f') ch = (char)(ch - 32); resp = cc + " " + up; if (up == hash) resp = cc + " " + hash + "f"; kind = 1; }
           else resp = cc + " " + hash;
           std::string l = "DATA " + wire::hex_encode(resp);
           w.peer_write(p0, l + "\r\n");
@@ -573,7 +576,7 @@ Plan gen_auth(uint64_t seed, bool th) {
     if (k < 22) { std::string id = ident(); add("line", {}, {"AUTH EXTERNAL" + (id.empty() && r.pct(60) ? std::string("") : " " + hex(id))}); }
     else if (k < 30) add("line", {}, {"AUTH ANONYMOUS" + (r.pct(50) ? std::string("") : " " + hex(r.pct(80) ? "trace@example.com" : std::string("\xff\xfe", 2)))});
     else if (k < 42) { std::string id = r.pct(70) ? std::to_string(suid) : ident(); add("line", {}, {"AUTH DBUS_COOKIE_SHA1" + (id.empty() ? std::string("") : " " + hex(id))}); }
-    else if (k < 50) add("cookie", {r.pct(55) ? 0 : (int64_t)r.range(1, 5), (int64_t)r.below(100)});
+    else if (k < 50) add("cookie", {r.pct(50) ? 0 : (int64_t)r.range(1, 7), (int64_t)r.below(100)});
     else if (k < 58) add("line", {}, {"DATA" + (r.pct(40) ? std::string("") : " " + (r.pct(75) ? hex(ident()) : std::string(r.pct(50) ? "zz" : "0g")))});
     else if (k < 63) add("line", {}, {"CANCEL"});
     else if (k < 67) add("line", {}, {r.pct(50) ? "ERROR" : "ERROR \"something\""});
@@ -600,7 +603,7 @@ Plan gen_auth(uint64_t seed, bool th) {
   } else if (shape < 50) {
     add("line", {}, {"AUTH DBUS_COOKIE_SHA1 " + hex(r.pct(80) ? std::to_string(suid) : ident())});
     if (r.pct(50)) run();
-    add("cookie", {r.pct(65) ? 0 : (int64_t)r.range(1, 5), (int64_t)r.below(100)});
+    add("cookie", {r.pct(55) ? 0 : (int64_t)r.range(1, 7), (int64_t)r.below(100)});
     if (r.pct(30)) one_line();
     add("line", {}, {"BEGIN"});
     if (r.pct(60)) add("msg");
